@@ -40,3 +40,8 @@ package commission
 //@   ensures result == curPrices(c)
 //@   ensures result != nil && result.PayloadByte != nil && result.FailedTx != nil && result.PayloadByte.val >= 0 && result.FailedTx.val >= 0
 //@   modifies commissionCache
+
+//@ # ---------------------------------------------------------------- lock discipline (C25)
+//@ guarded Commission.list, Commission.currentPrice, Commission.dirtyCurrent by lock
+//@ # NOT declared: Commission.dirty and Commission.forDelete: read without the lock by getOrderedDirty/Commit and written under
+//@ # the READ lock by Delete; only block execution touches them (EndBlock, Commit), no query does
